@@ -33,18 +33,37 @@ type c17cfg struct {
 	tcpSeen map[int][][]byte // call -> queries seen on TCP
 	tcpDials int
 	tcpDialsByCall map[int]int
+	tcpAnswered map[int]bool // the TCP server wrote a reply for this call
+	tcpKilled   map[int]bool // the TCP server died while handling this call
+	refusedAt   []int        // steps at which a TCP dial was refused
+	history     bool
+	healAfter   int // history family: the TCP side fails for the first healAfter TCP queries/dials, then answers
+	tcpEvents   int
 }
 
 func c17Setup(rc *RunCtx) simrt.Config {
 	r := rc.R
 	cfg, sname := drawSimConfig(r, 30000)
-	c := &c17cfg{udpSent: map[int][]byte{}, udpTC: map[int]bool{}, tcpSeen: map[int][][]byte{}, tcpDialsByCall: map[int]int{}}
+	c := &c17cfg{udpSent: map[int][]byte{}, udpTC: map[int]bool{}, tcpSeen: map[int][][]byte{}, tcpDialsByCall: map[int]int{}, tcpAnswered: map[int]bool{}, tcpKilled: map[int]bool{}}
 	c.callers = 1 + r.Choose(4)
 	for i := 0; i < c.callers; i++ {
 		c.perCall = append(c.perCall, 1+r.Choose(4))
 	}
 	c.pTC = []int{0, 30, 50, 100}[r.Choose(4)]
 	c.tcpMode = r.Choose(4)
+	if r.Choose(8) == 0 {
+		// history family: a long stream of truncated replies on one upstream whose
+		// TCP side fails many times and then recovers
+		c.history = true
+		c.callers = 1 + r.Choose(2)
+		c.perCall = nil
+		for i := 0; i < c.callers; i++ {
+			c.perCall = append(c.perCall, 20+r.Choose(25))
+		}
+		c.pTC = 100
+		c.healAfter = 10 + r.Choose(25)
+	}
+	rc.Cfg["history"] = c.history
 	rc.Net.ChunkMode = r.Choose(3)
 	rc.Cfg["strategy"] = sname
 	rc.Cfg["kind"] = "udp:// with TCP fallback"
@@ -115,6 +134,13 @@ func c17Main(rc *RunCtx) {
 			}
 			c.tcpSeen[call.Idx] = append(c.tcpSeen[call.Idx], append([]byte(nil), q...))
 			mode := c.tcpMode
+			if c.history {
+				c.tcpEvents++
+				mode = 0
+				if c.tcpEvents <= c.healAfter {
+					mode = 2
+				}
+			}
 			if mode == 3 {
 				mode = simrt.Choose(3)
 				if mode == 1 {
@@ -123,21 +149,27 @@ func c17Main(rc *RunCtx) {
 			}
 			if mode == 2 {
 				simrt.Fault("tcp_dies_mid_exchange")
+				c.tcpKilled[call.Idx] = true
 				sc.Close()
 				return
 			}
 			b, info := w.MakeReply(q, ReplyInfo{Call: call.Idx, Conn: sc.ID, WireID: wid, Kind: "tcp"}, false, 0)
+			c.tcpAnswered[call.Idx] = true
 			sc.WriteMsg(b, info)
 		}
 	})
 	tcp.DialFault = func(ctx context.Context, nth int) error {
 		c.tcpDials++
 		mode := c.tcpMode
+		if c.history {
+			mode = 0
+		}
 		if mode == 3 && simrt.Choose(3) == 0 {
 			mode = 1
 		}
 		if mode == 1 {
 			simrt.Fault("tcp_refused")
+			c.refusedAt = append(c.refusedAt, simrt.S.Steps())
 			return simnet.ErrRefused
 		}
 		return nil
@@ -196,7 +228,22 @@ func c17Check(rc *RunCtx, c *c17cfg, x *Call) {
 			}
 			simrt.Probe("c17.tcp_answer_returned")
 		} else {
-			// the failure must be TCP's: either the query reached the TCP server and it died, or the dial was refused
+			// the failure must be TCP's: either the query reached the TCP server and
+			// it died, or a dial was refused while the call was in progress
+			refused := false
+			for _, st := range c.refusedAt {
+				if st >= x.StartStep && st <= x.EndStep {
+					refused = true
+				}
+			}
+			if c.tcpAnswered[x.Idx] && !c.tcpKilled[x.Idx] && !refused {
+				rc.Fail("tcp_answer_not_returned", "call %d: the UDP reply had TC set and the TCP server answered, but the call failed: %v", x.Idx, x.Err)
+				return
+			}
+			if !c.tcpKilled[x.Idx] && !refused && len(seen) == 0 {
+				rc.Fail("tcp_retry_missing", "call %d: TC set, the TCP side is healthy (no refused dial, no killed exchange), but the query never appeared on TCP and the call failed: %v", x.Idx, x.Err)
+				return
+			}
 			simrt.Probe("c17.tcp_failure_returned")
 		}
 		for _, q := range seen {
